@@ -35,6 +35,7 @@ import (
 	"github.com/krotik/ecal/interpreter"
 	"github.com/krotik/ecal/parser"
 	"github.com/krotik/ecal/scope"
+	"github.com/krotik/ecal/util"
 )
 
 // the value universe of the property (index = position); `fn` is declared by the prelude
@@ -60,48 +61,72 @@ func c06Builtins() []string {
 }
 
 // c06Class reduces a canonical outcome of evalcommon to its class.
-func c06Class(out string) string {
-	head, log := out, ""
-	if i := strings.Index(out, " LOG "); i >= 0 {
-		head, log = out[:i], out[i+5:]
-	} else if strings.HasSuffix(out, " LOG") {
-		head = strings.TrimSuffix(out, " LOG")
+// c06Class: the outcome is already a class (kept for the call sites).
+func c06Class(out string) string { return out }
+
+// c06ErrWord: what C06 compares of an error — that it IS an error value (ERR), or one of the three control
+// signals break / continue / return (CTL: they pass through try). Never the error type, message, position or the
+// concrete Go type (those belong to C03/C04); the signal is recognised by the constant texts of package util in
+// Error(), not by reflection on private fields.
+func c06ErrWord(err error) string {
+	msg := err.Error()
+	for _, t := range []error{util.ErrReturn, util.ErrEndOfIteration, util.ErrContinueIteration} {
+		if strings.Contains(msg, t.Error()) {
+			return "CTL"
+		}
 	}
-	f := strings.Split(head, " ")
-	cl := head
-	switch {
-	case f[0] == "OK":
-		cl = "OK"
-	case f[0] == "ERR" && len(f) >= 2:
-		cl = "ERR " + f[1]
-	case f[0] == "V" && len(f) >= 3 && f[1] == "ERR":
-		cl = "V ERR " + f[2]
-	case f[0] == "NOPARSE", f[0] == "V":
-		return cl
+	return "ERR"
+}
+
+// c06Marks keeps the x.mark entries of the log (logger output is not an observable of C06).
+func c06Marks() string {
+	var m []string
+	for _, e := range strings.Split(evLog.String(), "|") {
+		if strings.HasPrefix(e, "m") {
+			m = append(m, e)
+		}
 	}
-	return cl + " LOG " + log
+	return strings.Join(m, "|")
+}
+
+// units a program can import (MemoryImportLocator): fine, parse error, validation error, runtime error, a unit
+// whose function fails later, a unit that imports a missing unit
+var c06ImportUnits = map[string]string{
+	"ok":     "a := 1\nfunc f() {\nreturn 2\n}",
+	"perr":   "a := := (",
+	"verr":   "for [a, 1] in [[1, 2]] {\n}",
+	"rerr":   "a := 1 % 0",
+	"late":   "func f() {\nreturn [1][5]\n}",
+	"nested": "import \"missing\" as q",
 }
 
 // c06Eval runs src with a fresh provider; the processor (workers) and the cron thread of the
-// provider are shut down afterwards.
+// provider are shut down afterwards. Result: OK | ERR | CTL (+ " LOG <marks>"), V, NOPARSE.
 func c06Eval(src string) (interface{}, string) {
+	return c06EvalWait(src, 0)
+}
+
+func c06EvalWait(src string, afterFinish time.Duration) (interface{}, string) {
 	evLog.reset()
-	erp := evNewProvider()
+	erp := interpreter.NewECALRuntimeProvider("t", &util.MemoryImportLocator{Files: c06ImportUnits}, evLog)
 	defer erp.Cron.Stop()
 	ast, err := parser.ParseWithRuntime("t", src, erp)
 	if err != nil {
 		return nil, "NOPARSE"
 	}
 	if err = ast.Runtime.Validate(); err != nil {
-		return nil, "V " + evErr(err)
+		return nil, "V"
 	}
 	vs := scope.NewScope(scope.GlobalScope)
 	res, err := ast.Runtime.Eval(vs, make(map[string]interface{}), erp.NewThreadID())
 	erp.Processor.Finish()
-	if err != nil {
-		return nil, evErr(err) + " LOG " + evLog.String()
+	if afterFinish > 0 {
+		time.Sleep(afterFinish) // triggers registered by the program fire after the processor has finished
 	}
-	return res, "OK - LOG " + evLog.String()
+	if err != nil {
+		return nil, c06ErrWord(err) + " LOG " + c06Marks()
+	}
+	return res, "OK LOG " + c06Marks()
 }
 
 func c06Indent(src string) string { return src }
@@ -109,6 +134,14 @@ func c06Indent(src string) string { return src }
 func c06Run(payload string) string {
 	f := strings.SplitN(payload, " ", 5)
 	switch f[0] {
+	case "D", "T":
+		if os.Getenv("C06_CHILD") == "" {
+			return c06InChild(payload, false)
+		}
+		if f[0] == "T" {
+			return c06RunTrigger()
+		}
+		return c06RunDepth(f)
 	case "K":
 		if os.Getenv("C06_CHILD") == "" {
 			return c06InChild(payload, false)
@@ -157,8 +190,6 @@ func c06Run(payload string) string {
 	return "bad-payload"
 }
 
-var c06ControlTypes = map[string]bool{hx("End of iteration was reached"): true, hx("End of iteration step - Continue iteration"): true, hx("*** return ***"): true}
-
 func c06SplitClass(cl string) (head, log string) {
 	if i := strings.Index(cl, " LOG "); i >= 0 {
 		return cl[:i], cl[i+5:]
@@ -176,13 +207,16 @@ func c06JoinLog(parts ...string) string {
 	return strings.Join(p, "|")
 }
 
-// c06Derive: the result of mode t / s / d / w from the class of the plain program ("" = no expectation).
+// c06Derive: the result of the wrapped modes from the class of the plain program ("" = no expectation).
+// Reading of "inside a sink it fails only that sink invocation" (C10's text makes fail-on-first-error the default):
+// the error is reported for that sink, it does not leave the trigger sequence of ITS event (no later event, no
+// worker, no host is affected) — but the sinks of the SAME event that come after the failing one do not run.
 func c06Derive(mode, plain string) string {
 	head, log := c06SplitClass(plain)
-	m1, m2, m3 := "m"+evCanon(1.0), "m"+evCanon(2.0), "m"+evCanon(3.0)
-	isErr := strings.HasPrefix(head, "ERR")
+	m1, m2, m3, m4 := "m"+evCanon(1.0), "m"+evCanon(2.0), "m"+evCanon(3.0), "m"+evCanon(4.0)
+	isErr := head == "ERR" || head == "CTL"
 	switch {
-	case head == "NOPARSE" || strings.HasPrefix(head, "V"):
+	case head == "NOPARSE" || head == "V":
 		if mode == "t" {
 			return head
 		}
@@ -194,10 +228,16 @@ func c06Derive(mode, plain string) string {
 	if isErr {
 		e = 1
 	}
+	after := func(x string) string { // a later sink of the same event runs only if this one did not fail
+		if isErr {
+			return ""
+		}
+		return x
+	}
 	switch mode {
 	case "t":
-		if f := strings.Split(head, " "); len(f) == 2 && c06ControlTypes[f[1]] {
-			return head + " LOG " + log // break / continue / return pass through try
+		if head == "CTL" {
+			return "CTL LOG " + log // break / continue / return pass through try
 		}
 		if isErr {
 			return "OK LOG " + c06JoinLog(log, m1)
@@ -205,8 +245,12 @@ func c06Derive(mode, plain string) string {
 		return "OK LOG " + log
 	case "s":
 		return fmt.Sprintf("SINK %d 0 LOG %s", e, c06JoinLog(log, m2))
-	case "d":
+	case "d": // failing sink LAST
 		return fmt.Sprintf("SINKD %d LOG %s", e, c06JoinLog(m3, log))
+	case "f": // failing sink FIRST, a second event afterwards
+		return fmt.Sprintf("SINKF %d 0 LOG %s", e, c06JoinLog(log, after(m3), m2))
+	case "m": // failing sink in the MIDDLE of three, a second event afterwards
+		return fmt.Sprintf("SINKM %d 0 LOG %s", e, c06JoinLog(m4, log, after(m3), m2))
 	case "w":
 		return fmt.Sprintf("SINKW %d %d LOG %s", e, e, c06JoinLog(log, log))
 	}
@@ -258,6 +302,19 @@ func c06RunMode(mode, src string) string {
 		}
 		n := c06CountErrs(res, 1)
 		return fmt.Sprintf("SINKD %d LOG %s", n[0], sinkLog(out))
+	case "f", "m":
+		prog := ""
+		if mode == "m" {
+			prog = "sink s0\n  kindmatch [\"k\"],\n  priority 1\n{\nx.mark(4)\n}\n"
+		}
+		prog += "sink s1\n  kindmatch [\"k\"],\n  priority 2\n{\n" + src + "\n}\nsink s3\n  kindmatch [\"k\"],\n  priority 3\n{\nx.mark(3)\n}\n" +
+			"sink s2\n  kindmatch [\"k2\"]\n{\nx.mark(2)\n}\nr1 := addEventAndWait(\"e\", \"k\", {})\nr2 := addEventAndWait(\"e\", \"k2\", {})\n[r1, r2]"
+		res, out := c06Eval(prog)
+		if !strings.HasPrefix(out, "OK") {
+			return "SINKFAIL " + c06Class(out)
+		}
+		n := c06CountErrs(res, 2)
+		return fmt.Sprintf("SINK%s %d %d LOG %s", strings.ToUpper(mode), n[0], n[1], sinkLog(out))
 	case "w":
 		prog := "sink s1\n  kindmatch [\"k\"]\n{\n" + src + "\n}\n" +
 			"r1 := addEventAndWait(\"e\", \"k\", {})\nr2 := addEventAndWait(\"e\", \"k\", {})\n[r1, r2]"
@@ -274,7 +331,8 @@ func c06RunMode(mode, src string) string {
 // c06InChild runs one case in a child process. A dead child is classified by what the Go runtime wrote to
 // stderr, so that a different crash cannot hide in a known class:
 //
-//	CRASH so-stringify    stack overflow inside fmt's printer or stringutil's JSON conversion (known finding cyclic-container-stringify)
+//	CRASH so-stringify    stack overflow inside a printer: fmt, stringutil's conversions, encoding/json (log / error / debug) (known finding cyclic-container-stringify)
+//	CRASH so-deepequal    stack overflow inside reflect.DeepEqual (same known finding: ==, in, statematch on such a value)
 //	CRASH concurrent-map  "fatal error: concurrent map …" (known finding unsynchronised-shared-container)
 //	CRASH other <text>    anything else (never predicted by the model: always a violation)
 func c06InChild(payload string, firstWord bool) string {
@@ -308,8 +366,10 @@ func c06InChild(payload string, firstWord bool) string {
 func c06CrashClass(stderr string) string {
 	switch {
 	case strings.Contains(stderr, "stack overflow") &&
-		(strings.Contains(stderr, "fmt.(*pp)") || strings.Contains(stderr, "stringutil.ConvertToJSONMarshalableObject")):
+		(strings.Contains(stderr, "fmt.(*pp)") || strings.Contains(stderr, "stringutil.Convert") || strings.Contains(stderr, "encoding/json.")):
 		return "CRASH so-stringify"
+	case strings.Contains(stderr, "stack overflow") && strings.Contains(stderr, "reflect.deepValueEqual"):
+		return "CRASH so-deepequal"
 	case strings.Contains(stderr, "fatal error: concurrent map"):
 		return "CRASH concurrent-map"
 	}
@@ -321,6 +381,48 @@ func c06CrashClass(stderr string) string {
 		}
 	}
 	return "CRASH other " + oneLine(first)
+}
+
+// ---- depth family: an ACYCLIC container nested `depth` deep (built by a loop), then one operation that recurses
+// over it in Go (reflect.DeepEqual / fmt / stringutil). Shallow nesting must work; very deep nesting overflows the
+// Go stack (known finding, same id as the cyclic one).
+var c06DepthNames = []string{"eq", "in", "interp", "errdetail", "log", "ret", "statematch"}
+
+func c06DepthProgram(variant string, depth int) string {
+	build := fmt.Sprintf("a := []\nb := []\nfor i in range(1, %d) {\na := [a]\nb := [b]\n}\n", depth)
+	switch variant {
+	case "eq":
+		return build + "x := a == b"
+	case "in":
+		return build + "x := a in [b]"
+	case "interp":
+		return build + "x := \"{{a}}\"\nlen([x])"
+	case "errdetail":
+		return build + "try {\n1 % a\n} except {\n}"
+	case "log":
+		return build + "log(a)"
+	case "ret":
+		return build + "func f() {\nreturn a\n}\nx := f()\nlen(x)"
+	case "statematch":
+		return build + "sink s\n  kindmatch [\"k\"],\n  statematch {\"x\": a}\n{\nx.mark(1)\n}\naddEventAndWait(\"e\", \"k\", {\"x\": b})\nlen(a)"
+	}
+	return "1"
+}
+
+func c06RunDepth(f []string) string {
+	var depth int
+	fmt.Sscanf(f[2], "%d", &depth)
+	_, out := c06Eval(c06DepthProgram(f[1], depth))
+	head, _ := c06SplitClass(out)
+	return head
+}
+
+// c06RunTrigger: a cron trigger (every second) and a pulse trigger are registered, the processor is finished, and
+// the triggers fire afterwards: the callbacks must notice the stopped processor instead of asserting.
+func c06RunTrigger() string {
+	_, out := c06EvalWait("sink s\n  kindmatch [\"k\"]\n{\nx.mark(1)\n}\nsetCronTrigger(\"* * * * * *\", \"c\", \"k\")\nsetPulseTrigger(200000, \"p\", \"k\")\n1", 2300*time.Millisecond)
+	head, _ := c06SplitClass(out)
+	return head
 }
 
 // ---- concurrency family: one container shared by the main thread and a sink that was triggered WITHOUT waiting
@@ -444,7 +546,7 @@ func corpusDir() string {
 
 // directed programs: the inputs of the repaired defects and odd literal shapes
 var c06Directed = []string{
-	"5 % 0", "5 % 0.5", "0 % 0", "-1 % 1e+300", "1e+300 % 3", "[1] == [1]", "[1] != [2]", "{1:2} == {1:2}", "[1] in [[1]]", "{} notin [{}]",
+	"a := [1]\na[0] := a\na == a", "5 % 0", "5 % 0.5", "0 % 0", "-1 % 1e+300", "1e+300 % 3", "[1] == [1]", "[1] != [2]", "{1:2} == {1:2}", "[1] in [[1]]", "{} notin [{}]",
 	"a := [1]\na[-5]", "a := [1]\na[-5] := 2", "a := [[1]]\na[-5][0] := 2", "a := [[1]]\na[0][-7] := 2", "x := {1}", "x := {1, 2}", "{[1]:2}", "{{}:2}",
 	"{null:1}", "{fn:1}", "{1:2, 1:3}", "{true:1, 1.5:2}", "del([1], 5)", "del([1], -1)", "add([1], 2, 7)", "add([1], 2, -1)", "add([1], 2, 1.5)", "add([1], 2, -0.5)",
 	"try {\nraise()\n} except as e {\ne\n}", "raise()", "raise(null)", "raise([1], {}, fn)", "\"}} {{\"", "\"{{\"", "\"{{1+}}\"", "\"{{[1][5]}}\"",
@@ -483,6 +585,8 @@ var c06SinkAttr2 = []string{
 var c06Cyclic = []string{
 	"a := [1]\na[0] := a\n\"{{a}}\"", "a := [1]\na[0] := a\nlog(a)", "a := [1]\na[0] := a\na >= \"s\"", "a := [1]\na[0] := a\n1 % a",
 	"a := {\"k\":1}\na.k := a\n\"{{a}}\"", "a := [1]\na[0] := a\ntype(a)",
+	"o := new({\"m\": func () {\nreturn this\n}})\no.self := o\no.m()", "a := [1]\na[0] := a\nfunc f() {\nreturn a\n}\nf()",
+
 }
 
 func c06GenCases(g *Gen) {
@@ -496,7 +600,33 @@ func c06GenCases(g *Gen) {
 		c.prog("corpus", "-", src, modes)
 	}
 	for _, src := range c06Directed {
-		c.prog("directed", "-", c06Prelude+src, modes+"dw")
+		c.prog("directed", "-", c06Prelude+src, modes+"dfmw")
+	}
+	// imported units (MemoryImportLocator): everything after Resolve runs — parse, Validate, Eval of the unit, ToObject
+	for _, im := range [][2]string{{"ok", "import \"ok\" as m\nm.a + m.f()"}, {"perr", "import \"perr\" as m\nm"},
+		{"verr", "import \"verr\" as m\nm"}, {"rerr", "import \"rerr\" as m\nm"}, {"late", "import \"late\" as m\nm.f()"},
+		{"nested", "import \"nested\" as m\nm"}, {"missing", "import \"missing\" as m\nm"}, {"okunused", "import \"ok\" as m\n1"}} {
+		c.prog("import", "imp:"+im[0], im[1], modes+"dfmw")
+	}
+	if c.want("depth", "-") {
+		depths := []int{1000, 10000}
+		if g.Thorough() {
+			depths = []int{1000, 10000, 100000, 1000000}
+		}
+		for _, v := range c06DepthNames {
+			for _, d := range depths {
+				v, d := v, d
+				g.Count("depth")
+				c.lazy.Emit(func() string { return fmt.Sprintf("D %s %d", v, d) })
+			}
+		}
+		// one very deep case in every run (the known finding must stay observable)
+		g.Count("depth")
+		c.lazy.Emit(func() string { return "D eq 1000000" })
+	}
+	if c.want("trigger", "-") {
+		g.Count("trigger")
+		c.lazy.Emit(func() string { return "T cron" })
 	}
 	for _, src := range c06SinkAttr2 {
 		c.prog("sinkattr2", "-", c06Prelude+src, "pt")
@@ -550,7 +680,7 @@ func c06GenCases(g *Gen) {
 	}
 	for _, op := range c06PreOps {
 		for _, v := range U {
-			c.prog("prefix", "-", c06Prelude+op+"("+v+")", modes+"dw")
+			c.prog("prefix", "-", c06Prelude+op+"("+v+")", modes+"dfmw")
 		}
 	}
 	for _, op := range c06BinOps {
@@ -560,7 +690,7 @@ func c06GenCases(g *Gen) {
 				if !g.Thorough() && (i+2*j)%7 == int(g.Seed%7) {
 					m = modes // a seed-dependent seventh of the matrix also inside try and inside a sink
 				}
-				c.prog("binop", "-", c06Prelude+"("+v+") "+op+" ("+w+")", m)
+				c.prog("binop", fmt.Sprintf("op:%s:%d,%d", strings.TrimSpace(op), i, j), c06Prelude+"("+v+") "+op+" ("+w+")", m)
 			}
 		}
 	}
@@ -590,7 +720,7 @@ func c06GenCases(g *Gen) {
 	if g.Thorough() {
 		maxLen = 3
 	}
-	names := c06Builtins()
+	names := append(c06Builtins(), "log", "error", "debug") // the three logging builtins are not in InbuildFuncMap
 	var vec func(n int, cur []int, f func([]int))
 	vec = func(n int, cur []int, f func([]int)) {
 		if n == 0 {
